@@ -284,3 +284,93 @@ Definition bexp_after (A : nat) (ops : list bop) : bexp := fold_left bexp_step o
    visits+prior) divided by their sum (sampleDirichletDistribution); the draws are inputs. *)
 Definition qsum' (l : list Q) : Q := fold_right Qplus 0 l.
 Definition thompson_row (g : list Q) : list Q := let z := qsum' g in map (fun x => x / z) g.
+
+(* ------------------------------------------------------------------ Factored: CooperativeExperience *)
+(* One node per state feature i; its tables have one row per (action-id, parent-id) pair of the DDN
+   graph: row = graph.getId(i, s, a).  Per row: visits per next value of the feature (columns
+   0..S[i]-1) plus their sum (column S[i]), running mean and M2 of the feature's reward. *)
+Record rexp := mkRexp { r_vis : list (list nat); r_avg : list Q; r_m2 : list Q }.
+Definition rexp_new (rows ncol : nat) : rexp := mkRexp (mk2 rows (S ncol) 0%nat) (repeat 0 rows) (repeat 0 rows).
+
+(* src: src/Factored/MDP/CooperativeExperience.cpp:record, body of the loop over features
+     vNode(id, s1[i]) += 1; vNode(id, S[i]) += 1; delta = rew[i] - rNode(id);
+     rNode(id) += delta / vNode(id, S[i]); mNode(id) += delta * (rew[i] - rNode(id));   *)
+Definition rexp_record (x : rexp) (ncol id v : nat) (r : Q) : rexp :=
+  let vis' := upd2 id ncol S (upd2 id v S (r_vis x)) in
+  let n' := get2 0%nat vis' id ncol in
+  let mu := nth id (r_avg x) 0 in
+  let delta := r - mu in
+  let mu' := Qred (mu + delta / inj n') in
+  mkRexp vis' (upd id (fun _ => mu') (r_avg x)) (upd id (fun y => Qred (y + delta * (r - mu'))) (r_m2 x)).
+
+(* the DDN graph: per feature (agents tag, one parent-feature tag per joint action of those agents) *)
+Record cgraph := mkCG { cgS : list nat; cgA : list nat; cgPar : list (list nat * list (list nat)) }.
+
+(* src: Factored/Utils/Core.cpp:toIndexPartial(ids, space, f): first key least significant
+   (closed form of the result/multiplier loop) *)
+Fixpoint pidx (keys space f : list nat) : nat :=
+  match keys with [] => 0%nat | k :: t => (nth k f 0 + nth k space 0 * pidx t space f)%nat end.
+(* src: Core.cpp:factorSpacePartial *)
+Fixpoint pspace (keys space : list nat) : nat :=
+  match keys with [] => 1%nat | k :: t => (nth k space 0 * pspace t space)%nat end.
+(* src: BayesianNetwork.cpp:DDNGraph::push — startIds_[feature][actionId] = sum of the partial spaces before it *)
+Fixpoint cg_start (fsets : list (list nat)) (space : list nat) (aid : nat) : nat :=
+  match aid, fsets with
+  | S k, f :: t => (pspace f space + cg_start t space k)%nat
+  | _, _ => 0%nat
+  end.
+(* src: BayesianNetwork.cpp:DDNGraph::getId(feature, s, a) = startIds_[feature][actionId] + parentId *)
+Definition cg_id (g : cgraph) (i : nat) (s a : list nat) : nat :=
+  let '(agents, fsets) := nth i (cgPar g) ([], []) in
+  let aid := pidx agents (cgA g) a in
+  (cg_start fsets (cgS g) aid + pidx (nth aid fsets []) (cgS g) s)%nat.
+(* src: DDNGraph::getSize *)
+Definition cg_size (g : cgraph) (i : nat) : nat :=
+  let '(agents, fsets) := nth i (cgPar g) ([], []) in cg_start fsets (cgS g) (length fsets).
+
+Record cexp := mkCexp { c_nodes : list rexp; c_ts : nat }.
+Definition rexp_dflt : rexp := mkRexp [] [] [].
+Definition cnode (e : cexp) (i : nat) : rexp := nth i (c_nodes e) rexp_dflt.
+
+(* src: CooperativeExperience.cpp:constructor / reset (reset zeroes rewards_, M2s_, visits_, timesteps_) *)
+Definition cexp_new (g : cgraph) : cexp :=
+  mkCexp (map (fun i => rexp_new (cg_size g i) (nth i (cgS g) 0%nat)) (seq 0 (length (cgS g)))) 0.
+Definition cexp_reset (g : cgraph) (e : cexp) : cexp := cexp_new g.
+
+(* src: CooperativeExperience.cpp:record *)
+Definition cexp_record (g : cgraph) (e : cexp) (s a s1 : list nat) (rews : list Q) : cexp :=
+  mkCexp (map (fun i => rexp_record (cnode e i) (nth i (cgS g) 0%nat) (cg_id g i s a) (nth i s1 0%nat) (nth i rews 0))
+              (seq 0 (length (cgS g))))
+         (S (c_ts e)).
+
+Inductive cop := CRecord (s a s1 : list nat) (rews : list Q) | CReset.
+Definition cexp_step (g : cgraph) (e : cexp) (o : cop) : cexp :=
+  match o with CRecord s a s1 rews => cexp_record g e s a s1 rews | CReset => cexp_reset g e end.
+Definition cexp_after (g : cgraph) (ops : list cop) : cexp := fold_left (cexp_step g) ops (cexp_new g).
+
+(* ------------------------------------------------------------------ CooperativeMaximumLikelihoodModel *)
+Record cml := mkCml { cm_tr : list (list (list Q)); cm_rw : list (list Q) }.   (* [feature][row][value], [feature][row] *)
+(* src: CooperativeMaximumLikelihoodModel.cpp:constructor — setZero(); col(0).fill(1.0); rewards 0 *)
+Definition cml_new (g : cgraph) : cml :=
+  mkCml (map (fun i => repeat (map (fun v => if (v =? 0)%nat then 1 else 0) (seq 0 (nth i (cgS g) 0%nat))) (cg_size g i))
+             (seq 0 (length (cgS g))))
+        (map (fun i => repeat 0 (cg_size g i)) (seq 0 (length (cgS g)))).
+(* src: syncRow(i, j): totalVisits = vtable[i](j, S[i]); if 0 return;
+        row j = visits row head(S[i]) / totalVisits; rewards_[i][j] = rmatrix[i][j] *)
+Definition cml_syncRow (g : cgraph) (e : cexp) (m : cml) (i j : nat) : cml :=
+  let ncol := nth i (cgS g) 0%nat in
+  let x := cnode e i in
+  let tot := get2 0%nat (r_vis x) j ncol in
+  if (tot =? 0)%nat then m else
+  mkCml (upd2 i j (fun _ => map (fun v => Qred (inj (get2 0%nat (r_vis x) j v) / inj tot)) (seq 0 ncol)) (cm_tr m))
+        (upd2 i j (fun _ => nth j (r_avg x) 0) (cm_rw m)).
+(* src: sync() *)
+Definition cml_sync_all (g : cgraph) (e : cexp) (m : cml) : cml :=
+  fold_left (fun m i => fold_left (fun m j => cml_syncRow g e m i j) (seq 0 (cg_size g i)) m) (seq 0 (length (cgS g))) m.
+(* src: sync(indeces) and sync(s, a) (indeces[i] = graph.getId(i, s, a)) *)
+Definition cml_sync_ids (g : cgraph) (e : cexp) (m : cml) (ids : list nat) : cml :=
+  fold_left (fun m i => cml_syncRow g e m i (nth i ids 0%nat)) (seq 0 (length (cgS g))) m.
+Definition cml_sync_sa (g : cgraph) (e : cexp) (m : cml) (s a : list nat) : cml :=
+  cml_sync_ids g e m (map (fun i => cg_id g i s a) (seq 0 (length (cgS g)))).
+Definition cml_ctor (g : cgraph) (e : cexp) (toSync : bool) : cml :=
+  if toSync then cml_sync_all g e (cml_new g) else cml_new g.
